@@ -133,7 +133,12 @@ def h_vke_partial(gid, **a):
 
 from engine.catalog import names as _names
 
-for _g in [GRAPHS[g] for g in sorted(GRAPHS) if g not in HEAVY and _names(GRAPHS[g].spec) and "effopt" not in GRAPHS[g].tags]:
+def _has_nonselector_body(g):
+    # a body that validate() itself has to run (a branch selector) fails validate too: nothing to check for such graphs
+    return bool(set(_names(g.spec)) - T.selector_bodies(g.spec))
+
+
+for _g in [GRAPHS[g] for g in sorted(GRAPHS) if g not in HEAVY and _has_nonselector_body(GRAPHS[g]) and "effopt" not in GRAPHS[g].tags]:
     _fp = [("f%d" % i, "bool") for i, _ in enumerate(T.fault_names(_g.spec))]
     _ex = {"f%d" % i: (n != "pred") for i, n in enumerate(T.fault_names(_g.spec))}
     T.register("C10", __name__, h_vke_partial, {}, [_g], lemma="partial-bodies", name_prefix="vkep", timeout=300, extra_params=_fp,
